@@ -524,6 +524,9 @@ def _bindings(fn):
     return out
 
 
+VOLATILE_ATTRS = set()  # names of plain @property members of the package (set by Program.inlined_views): every read re-runs them
+
+
 def _stable_formula(fn, st, v, ctx):
     """is `v` (defined at statement st) a formula whose value cannot change while the function runs?  ctx: precomputed store/mutation sets"""
     from . import walk as W
@@ -543,6 +546,9 @@ def _stable_formula(fn, st, v, ctx):
             if isinstance(n, (ast.Nonlocal, ast.Global)):
                 shared.update(n.names)
     if any(isinstance(x, ast.Name) and x.id in shared for x in ast.walk(v)):
+        return False
+    # `other.I` is a property that builds a new generator on every read: binding it once and reading it twice are different programs
+    if any(isinstance(x, ast.Attribute) and x.attr in VOLATILE_ATTRS for x in ast.walk(v)):
         return False
     if isinstance(v, ast.Call):
         # value builtins over stable, unmutated operands only (len(x), abs(x), ...)
